@@ -53,13 +53,14 @@ func SignJSON(signingName string, keyID KeyID, privateKey ed25519.PrivateKey, me
 		return nil, err
 	}
 	signature := spec.Base64Bytes(ed25519.Sign(privateKey, canonical))
-	if _, ok := preserve.Signatures[signingName]; ok {
-		preserve.Signatures[signingName][keyID] = signature
-	} else {
-		preserve.Signatures[signingName] = map[KeyID]spec.Base64Bytes{
-			keyID: signature,
-		}
+	// a "signatures" member, or the signer's entry in it, may be a JSON null
+	if preserve.Signatures == nil {
+		preserve.Signatures = map[string]map[KeyID]spec.Base64Bytes{}
 	}
+	if preserve.Signatures[signingName] == nil {
+		preserve.Signatures[signingName] = map[KeyID]spec.Base64Bytes{}
+	}
+	preserve.Signatures[signingName][keyID] = signature
 	signatures, err := json.Marshal(preserve.Signatures)
 	if err != nil {
 		return nil, err
